@@ -20,7 +20,7 @@ ASSUMPTIONS = ["the transform chain's output on the design grid is an input of t
                "executed instance: 1 or 3 permittivity components (componentwise inverse); the 9-component tensor inverse is covered by the theorems (abstract invert) but not executed"]
 TRUSTED = ["correspondence harness (Qc_close 1e-9)", "materials ordered by ascending first permittivity component (checked against compute_allowed_permittivities)"]
 
-KINDS = ["cont", "cont", "disc", "disc", "etch"]
+KINDS = ["cont", "etch", "disc", "etch", "cont", "disc"]
 EPS = [1.0, 2.0, 2.25, 3.0, 4.0, 5.0, 8.0, 12.0]
 
 
@@ -60,7 +60,7 @@ def gen_case(rng, i):
     if rng.random() < 0.8:
         cut = rng.randint(2, shape[0] - 2)
         bg = {"box": [[0, cut], [0, shape[1]], [0, shape[2]]], "eps": rnd_eps(rng, diag and rng.random() < 0.7)}
-    nh = rng.choice([1, 2, 2, 3])
+    nh = rng.choice([2, 3]) if any(d["kind"] == "etch" for d in devs) else rng.choice([1, 2, 2, 3])   # etching: history must matter
     return {"shape": shape, "vol_eps": rnd_eps(rng, False) if not diag else rnd_eps(rng, rng.random() < 0.5), "bg": bg, "devices": devs,
             "hist": [[rng.randint(0, 10**6) for _ in devs] for _ in range(nh)]}
 
